@@ -323,8 +323,10 @@ def main():
         "C09": " Kernels up to N = 2^21; exponents p, p+N, p+2N back to back; in-place wrapper calls with unequal sizes, compaction and clearing.",
         "C10": " The same buffer passed as both operands; half-word-boundary operands.",
         "C12": " The built library is scanned for non-temporal stores without a fence (advisory).",
-        "C13": " In-buffer layouts under an explicit legality rule (compaction, compaction and clearing, vectors sharing single limbs, add / sub "
-               "over either operand, normalisation over its own input with another stride).",
+        "C13": " Overlay.tla decides which in-buffer layouts are well defined (rule checked against the loop on a buffer of cells for every layout "
+               "of a box, an illegal layout that ends wrong as witness); the legal layouts - compaction, compaction and clearing, vectors sharing "
+               "single limbs - are replayed for the unary operations and for add / sub over either operand; normalisation over its own input "
+               "with another stride against a separate result.",
         "C14": " Every declared bound / overhead, divisors 2^j up to |j| = 1000, first uses of the caches in a fresh process in several orders, "
                "dimensions up to 2^18 through the simple forms.",
         "C15": " Operands at particular places relative to each other (adjacent; exactly 2^31+64, 2^32, 2^35 bytes apart) in a sparse mapping; "
